@@ -735,6 +735,8 @@ func (s *State) diffASAACLs(al, bl []*cmd, diff []edit.Range) {
 		p = rx.ReplaceAllLiteralString(p, "")
 		if a := delMap[p]; a != nil {
 			moveACL(a, b)
+			// Line on device can be moved only once.
+			delete(delMap, p)
 			continue
 		}
 		addACL(b)
